@@ -26,6 +26,8 @@ BWD_OPS = ["autograd::engine::evaluate_function: AddBackward0", "autograd::engin
 K_COMP = ["ampere_sgemm_128x64_nn", "void at::native::vectorized_elementwise_kernel<4, at::native::AddFunctor<float> >(int, float)",
           "sm80_xmma_gemm_f32f32", "void cutlass::Kernel<cutlass_80_tensorop>(Params)",
           "void at::native::vectorized_elementwise_kernel<4, at::native::MulFunctor<float> >(int, float)"]
+# not drawn by the simulator (the draw sequences of all properties stay as they are); substituted into some C04 cases
+K_COMP_MEMSET_LIKE = "void fbgemm_gpu::fusedMemsetScatter_kernel<float>(float*, int)"
 K_COMM = ["ncclKernel_AllReduce_RING_LL_Sum_float(ncclWorkElem)", "ncclDevKernel_AllGather_RING_LL(ncclDevComm*)"]
 K_MEMCPY = ["Memcpy HtoD (Pageable -> Device)", "Memcpy DtoH (Device -> Pageable)", "Memcpy DtoD (Device -> Device)",
             "Memcpy HtoD (Pinned -> Device)"]      # two full names of one copy type
